@@ -14,6 +14,8 @@
      dyn <flags> <indent> <size> [k]      -> <ret>:<err>:<over>:<hang>:<ok>:<ntr>:<trh> <block sizes asked of realloc, comma separated, - if none>
                                              (k: the k-th realloc call fails and is listed as 0)
      dynsweep <flags> <indent> <from> <to> -> <record>=<block sizes> for every initial size of the growing buffer
+     finsweep <flags> <indent> <from> <to> -> fixed buffers finished through flatcc_json_printer_finalize(): ret = its return value
+     filefin <flags> <indent>             -> the file printer finished through flatcc_json_printer_finalize()
      file <flags> <indent>                -> <ret>:<err>:<over>:<hang>:<ok>:<ntr>:<trh>
      sweep <flags> <indent> <from> <to>   -> one such record per fixed buffer size, S = skipped after three hangs
      trace <mode f|d|l> <flags> <indent> <size> -> the p - pflush values seen by the flush callback
@@ -252,6 +254,54 @@ done:
     r->over = g_over + (g_asan_hit ? 1000000 : 0);
 }
 
+/* the same prints finished through flatcc_json_printer_finalize(): appends a newline, flushes, returns the total or a
+   negative value when an error is set.  ret = finalize's return value; ok = the output is the reference text + newline
+   (fixed buffer: zero terminated; file: the stream content) and ret = its length. */
+static void print_fixed_fin(size_t size, int flags, int indent, struct res *r)
+{
+    flatcc_json_printer_t ctx; char *out = (char *)ps_alloc(size); int pr;
+    memset(r, 0, sizeof(*r)); g_over = 0; g_asan_hit = 0;
+    memset(out, 0x5a, size);
+    if (sigsetjmp(g_jb, 1)) { r->hang = 1; r->ret = -9; goto done; }
+    if (flatcc_json_printer_init_buffer(&ctx, out, size)) { r->ret = -8; goto done; }
+    apply(&ctx, flags, indent);
+    arm(g_timeout_ms);
+    pr = print_sweep_print_json(&ctx, (const char *)g_fb, g_fbsz);
+    r->err = flatcc_json_printer_get_error(&ctx);
+    r->ret = flatcc_json_printer_finalize(&ctx);
+    disarm();
+    (void)pr;
+    if (r->ret >= 0)
+        r->ok = g_refret >= 0 && (size_t)r->ret == g_reflen + 1 && g_reflen + 2 <= size && memcmp(out, g_ref, g_reflen) == 0
+                && out[g_reflen] == '\n' && out[g_reflen + 1] == 0;
+done:
+    disarm();
+    ps_free(out);
+    r->over = g_over + (g_asan_hit ? 1000000 : 0);
+}
+
+static void print_file_fin(int flags, int indent, struct res *r)
+{
+    flatcc_json_printer_t ctx; char *mem = 0; size_t memlen = 0; FILE *fp = open_memstream(&mem, &memlen);
+    memset(r, 0, sizeof(*r)); g_over = 0; g_asan_hit = 0; memset(&ctx, 0, sizeof(ctx));
+    if (sigsetjmp(g_jb, 1)) { r->hang = 1; r->ret = -9; goto done; }
+    if (flatcc_json_printer_init(&ctx, fp)) { r->ret = -8; goto done; }
+    apply(&ctx, flags, indent);
+    arm(g_timeout_ms);
+    print_sweep_print_json(&ctx, (const char *)g_fb, g_fbsz);
+    r->err = flatcc_json_printer_get_error(&ctx);
+    r->ret = flatcc_json_printer_finalize(&ctx);
+    disarm();
+    fflush(fp);
+    if (r->ret >= 0)
+        r->ok = g_refret >= 0 && (size_t)r->ret == g_reflen + 1 && memlen == g_reflen + 1 && memcmp(mem, g_ref, g_reflen) == 0 && mem[g_reflen] == '\n';
+done:
+    disarm();
+    if (!r->hang) flatcc_json_printer_clear(&ctx);
+    fclose(fp); free(mem);
+    r->over = g_over + (g_asan_hit ? 1000000 : 0);
+}
+
 static void put_res(const struct res *r)
 {
     printf("%d:%d:%ld:%d:%d:%ld:%llu", r->ret, r->err, r->over, r->hang, r->ok, r->ntr, (unsigned long long)r->trh);
@@ -362,6 +412,18 @@ int main(void)
                 hangs += r.hang;
             }
             printf("\n");
+        } else if (!strcmp(t[0], "finsweep") && n == 5) {
+            long a = atol(t[3]), b = atol(t[4]), sz; int hangs = 0;
+            for (sz = a; sz <= b; ++sz) {
+                struct res r;
+                if (sz > a) printf(" ");
+                if (hangs >= 3) { printf("S"); continue; }
+                print_fixed_fin((size_t)sz, atoi(t[1]), atoi(t[2]), &r); put_res(&r);
+                hangs += r.hang;
+            }
+            printf("\n");
+        } else if (!strcmp(t[0], "filefin") && n == 3) {
+            struct res r; print_file_fin(atoi(t[1]), atoi(t[2]), &r); put_res(&r); printf("\n");
         } else if (!strcmp(t[0], "file") && n == 3) {
             struct res r; print_file(atoi(t[1]), atoi(t[2]), &r, 0); put_res(&r); printf("\n");
         } else if (!strcmp(t[0], "sweep") && n == 5) {
